@@ -116,8 +116,8 @@ class Engine:
             try:
                 os.makedirs(mnt, exist_ok=True)
                 with open(img, "wb") as fh:
-                    fh.truncate(8 << 20)
-                if subprocess.run(["mke2fs", "-q", "-F", img], capture_output=True, timeout=60).returncode != 0:
+                    fh.truncate(96 << 20)        # sparse; room and inodes for every mounted case of a thorough run at once
+                if subprocess.run(["mke2fs", "-q", "-F", "-N", "200000", img], capture_output=True, timeout=60).returncode != 0:
                     return None
                 if subprocess.run(["mount", "-o", "loop", img, mnt], capture_output=True, timeout=60).returncode != 0:
                     return None
@@ -151,7 +151,13 @@ class Engine:
             if m:
                 base = os.path.join(m, "cases")
         croot = os.path.join(base, "c%d" % n)
-        os.mkdir(croot)
+        try:
+            os.mkdir(croot)
+        except OSError:
+            # the second file system is full: this case is run on the first one (its "mounted" flag no longer applies)
+            case["mounted"] = False
+            croot = os.path.join(self.root, "cases", "c%d" % n)
+            os.mkdir(croot)
         p = croot
         dirs = []
         for i, (owner, mode) in enumerate(case["chain"]):
